@@ -300,6 +300,9 @@ class Lane(object):
         if self.t.op == 'var' and self.t.args[0].endswith('@i') and self.mask is None:
             return ir.var(self.t.args[0][:-2], 'U')
         args = [self.t] + ([self.mask] if self.mask is not None else [])
+        if not _mentions_lane(self.t):
+            # an array filled with a lane-independent value is determined by the value AND its length
+            args.append(to_term(self.n))
         return ir.uf('arr', args, 'U')
 
     def fresh_like(self, t):
